@@ -58,12 +58,13 @@ func (w *TopoWatcher) Start(ch chan<- controller.ID) error {
 				if err != nil {
 					if !errors.IsNotFound(err) {
 						log.Warn(err)
+						continue
 					}
-					continue
-				}
-
-				// Check that the source is ONOS_CONFIG kind
-				if srcEntity.GetEntity().KindID != topoapi.ONOS_CONFIG {
+					// The source is gone already (an instance that died: its entity was removed before, or
+					// together with, its relations). The relation may have been the master's: the target's
+					// mastership has to be looked at all the same.
+				} else if srcEntity.GetEntity().KindID != topoapi.ONOS_CONFIG {
+					// Check that the source is ONOS_CONFIG kind
 					continue
 				}
 
